@@ -184,6 +184,34 @@ check('C05',
       'preconditions evaluated by the harness (limiter flags, split factors, InitCheckers, islands, online references).',
       'DESIGN.md 7 C05')
 
+check('C07',
+      'property-based testing (Hypothesis): (a) generated single-machine-infinite-bus systems with line-switching '
+      'schedules vs an independent swing-equation reference (scipy solve_ivp, own nodal solution), convergence under step '
+      'halving for both integration methods; (b) stock cases kicked by a 5-20 ms line trip vs the matrix-exponential '
+      'response of an independently reduced linearisation',
+      'Differential testing against an independent high-accuracy reference and against the system\'s own linearisation.',
+      'Trusted: vf/oracle/smib.py (no ANDES import), scipy integrators and expm; the Jacobians used for (b) are those '
+      'checked by C03. (b) only judged for small kicks without limiter activity.',
+      'DESIGN.md 7 C07')
+
+check('C08',
+      'property-based testing (Hypothesis): generated DAE blocks (incl. any number/position of zero time constants and '
+      'eigenvalues planted around the zero band) fed to the routine\'s methods, and EIG.run() on stock cases (also after '
+      'zeroing a time constant / sweeping inertia); oracle: dense Schur-complement / QZ reference spectrum as multiset, '
+      'state-matrix formula, count partition, participation-factor normalisation',
+      'Differential testing against an independent dense reference on generated matrices.',
+      'Trusted: numpy/scipy dense linear algebra; comparisons scaled by the eigenvector condition number.',
+      'DESIGN.md 7 C08')
+
+check('C16',
+      'property-based testing (Hypothesis): generated call sequences on one Solver instance per back-end (pattern/value '
+      'changes, singular matrices, refresh flags, clear) run in a journalled child process vs dense numpy residuals; stock '
+      'cases under drawn back-end configurations vs the klu reference (power flow, trajectory, eigenvalues); fresh-process '
+      'repetition under different hash seeds must be bit-identical',
+      'Stateful differential testing of the solver wrapper and metamorphic comparison across interchangeable back-ends.',
+      'Trusted: numpy dense residual; CuPy back-end unavailable; SciPy solve() only judged when a refresh was requested.',
+      'DESIGN.md 7 C16')
+
 NOT_BUILT = 'check not built yet in this round (machinery in progress; see DESIGN.md section 10 build order)'
 ALL = ['C%02d' % i for i in range(1, 21)]
 
